@@ -121,6 +121,7 @@ type scenario struct {
 	OneWay    bool          `json:"every_other_request_one_way"`
 	TLS       bool          `json:"tls"`
 	IdleMs    int           `json:"connections_idle_ms_before_shutdown"` // with requests_per_connection = 0: clients that only sit there
+	RawPeer   bool          `json:"tcp_peer_that_never_starts_the_tls_handshake"`
 }
 
 type connResult struct {
@@ -204,6 +205,14 @@ func runScenario(sc scenario) {
 				}
 			}
 		}(c, cn)
+	}
+	if sc.RawPeer {
+		// a peer that opened the TCP connection to the TLS port and says nothing (a port scanner, a
+		// health checker): it must not keep the shutdown from notifying the others and returning
+		if rp, err := net.DialTimeout("tcp", conf.Address, 3*time.Second); err == nil {
+			defer rp.Close()
+			time.Sleep(50 * time.Millisecond)
+		}
 	}
 	total := sc.Conns * sc.PerConn
 	// wait until every request has been framed by the server (read from its connection)
@@ -449,6 +458,8 @@ func main() {
 				id++
 				scs = append(scs, scenario{ID: id, Pool: pool, Conns: 3, PerConn: 2, Script: "all-at-once", CtxMs: 6000, Delay: 300 * time.Millisecond, DelayMs: 300, TLS: tlsOn})
 			}
+			id++
+			scs = append(scs, scenario{ID: id, Pool: pool, Conns: 3, PerConn: 1, Script: "all-at-once", CtxMs: 4000, Delay: 200 * time.Millisecond, DelayMs: 200, TLS: true, RawPeer: true})
 			// clients that die by reset while their requests execute; healthy ones must still get the notice
 			id++
 			scs = append(scs, scenario{ID: id, Pool: pool, Conns: 12, PerConn: 1, Script: "after-notice", CtxMs: 6000, Delay: 300 * time.Millisecond, DelayMs: 300, ResetConn: 6})
